@@ -67,7 +67,12 @@ class ArgSpec:
             case int():
                 return str(arg)
             case float():
-                return str(arg)
+                res = str(arg)
+                if "e" in res and "." not in res:
+                    # The lexer only recognises numbers with an exponent
+                    # if they have a fractional part
+                    res = res.replace("e", ".0e")
+                return res
 
     @staticmethod
     def _escape_string(arg: str) -> str:
